@@ -1,12 +1,14 @@
 import Driver.Basic
 import Driver.C35
 import Driver.C01
+import Driver.C06
 open Mitum Mitum.Driver
 
 def step (line : String) : String :=
   match tokens line with
   | "C01" :: ts => stepC01 ts
   | "C02" :: ts => stepC02 ts
+  | "C06" :: ts => stepC06 ts
   | "C35" :: ts => stepC35 ts
   | _ => "bad-op"
 
